@@ -34,5 +34,8 @@ InitOut == (TLCGet("level") = 1) => PrintT(<<"INIT", ToJson(State)>>)
 \* not explored further; at most 40 reports
 AgreementOut == Agreement \/ (TLCGet(2) < 40 /\ TLCSet(2, TLCGet(2) + 1) /\ PrintT(<<"ROW", ToJson(hist)>>) /\ FALSE)
 ASSUME TLCSet(2, 0)
+\* every state at the depth bound reports its schedule (exhaustive family of model schedules of that length; they are
+\* executed on the real nodes for the Agreement oracle only)
+FrontierOut == Len(hist) < MaxDepth \/ PrintT(<<"ROW", ToJson(hist)>>)
 SomeSealed == \E i \in Honest : node[i].hasSealed
 =============================================================================
